@@ -961,9 +961,17 @@ class Interp:
         if r is not NotImplemented:
             return r
         args = [self.eval(a, env) for a in arg_nodes]
-        return self.call_path(path, args, generic, n)
+        # `&mut` arguments that name a local struct / vector value: what the callee leaves in the parameter is written back
+        wb = []
+        for i, a in enumerate(arg_nodes):
+            base = core.strip(a)
+            while base.get("k") in ("AddrOf", "Unary") and base.get("k") != "Unary" or (base.get("k") == "AddrOf"):
+                base = core.strip(base["e"])
+            if base.get("k") in ("Path", "Field") and (base.get("res") == "local" or base.get("k") == "Field") and isinstance(args[i], tuple) and args[i] and args[i][0] in ("st", "vec"):
+                wb.append((i, base, env))
+        return self.call_path(path, args, generic, n, writeback=wb)
 
-    def call_path(self, path, args, generic=None, n=None):
+    def call_path(self, path, args, generic=None, n=None, writeback=()):
         fn = self.prog.fns.get(path)
         if fn is None and generic:
             fn = self.prog.fns.get(generic)
@@ -976,10 +984,22 @@ class Interp:
             self.depth -= 1
             self.const_env.append(const_args(fn, n))
             self.type_env.append(type_args(fn, n, self.type_env[-1]))
+            def write_back():
+                for i, place, cenv in writeback:
+                    if i < len(fn.params) and (fn.params[i].get("ty") or "").startswith("&mut ") and fn.params[i].get("k") == "Binding":
+                        v = e2.get(fn.params[i]["lid"])
+                        if v is not None and v != args[i]:
+                            try:
+                                self.assign(place, v, cenv)
+                            except Unsupported:
+                                pass
             try:
-                return self.eval(fn.body, e2)
+                r = self.eval(fn.body, e2)
+                write_back()
+                return r
             except Exit as e:
                 if e.kind == "return":
+                    write_back()
                     return e.value
                 raise
             finally:
